@@ -268,12 +268,20 @@ func (e *Env) down(name string) *iscp.Downstream {
 
 var ErrSkipped = errors.New("skipped: object not open")
 
+// ackTimeoutOption: an explicit ack timeout, or no option at all (an explicit 0 would mask a changed library default)
+func ackTimeoutOption(ms int) iscp.UpstreamOption {
+	if ms <= 0 {
+		return func(*iscp.UpstreamConfig) {}
+	}
+	return iscp.WithUpstreamAckTimeout(time.Duration(ms) * time.Millisecond)
+}
+
 func (e *Env) call(ctx context.Context, op Op, r *Rec) error {
 	switch op.Kind {
 	case "open-up":
 		name := op.Obj
 		u, err := e.Conn.OpenUpstream(ctx, "sess-"+name, iscp.WithUpstreamQoS(message.QoS(op.QoS)), iscp.WithUpstreamFlushPolicyNone(),
-			iscp.WithUpstreamCloseTimeout(time.Duration(e.Cfg.CloseTimeoutMs)*time.Millisecond), iscp.WithUpstreamAckTimeout(time.Duration(e.Cfg.AckTimeoutMs)*time.Millisecond),
+			iscp.WithUpstreamCloseTimeout(time.Duration(e.Cfg.CloseTimeoutMs)*time.Millisecond), ackTimeoutOption(e.Cfg.AckTimeoutMs),
 			iscp.WithUpstreamClosedEventHandler(iscp.UpstreamClosedEventHandlerFunc(func(ev *iscp.UpstreamClosedEvent) {
 				e.Events.mu.Lock()
 				e.Events.UpClosed[name] = append(e.Events.UpClosed[name], ev.Err)
